@@ -403,8 +403,8 @@ def _mono_one(res, spec_name, kind, cfg, dim, real, ne16, selftest, tier):
     others = [d_ for d_ in ('cin', 'cout', 'out0', 'out1') if d_ != dim and not (kind.endswith('_dw') and d_ == 'cin')]
     if kind == 'linear' or spec_name.startswith('params'):
         others = [d_ for d_ in others if not d_.startswith('out')]
-    grid_ch = GRID_CH if tier == 'thorough' else [1, 2, 16, 17, 33, 130]
-    grid_out = GRID_OUT if tier == 'thorough' else [1, 3, 8, 17, 33]
+    grid_ch = GRID_CH if tier == 'thorough' else [1, 17, 130]
+    grid_out = GRID_OUT if tier == 'thorough' else [1, 8, 33]
 
     def grid_points():
         axes = []
